@@ -49,6 +49,41 @@ class _IntegralFloat:
         return True
 
 
+class _IntAsFloat:
+    """float(v) for a *symbolic* int v inside NumericAttribute._float_parser: a number equal to v (exact below 2**53).
+    Only comparisons are supported - harnesses never encode such a value (float kernels are outside the claim)."""
+
+    def __init__(self, v):
+        self.v = v
+
+    def _o(self, o):
+        return o.v if isinstance(o, _IntAsFloat) else o
+
+    def __eq__(self, o):
+        return self.v == self._o(o)
+
+    def __ne__(self, o):
+        return self.v != self._o(o)
+
+    def __lt__(self, o):
+        return self.v < self._o(o)
+
+    def __le__(self, o):
+        return self.v <= self._o(o)
+
+    def __gt__(self, o):
+        return self.v > self._o(o)
+
+    def __ge__(self, o):
+        return self.v >= self._o(o)
+
+    def __hash__(self):
+        return hash(self.v)
+
+    def is_integer(self):
+        return True
+
+
 _real_float, _real_int = float, int
 
 
@@ -59,9 +94,11 @@ def _is_symbolic(v):
         return type(v).__module__.startswith('crosshair')
 
 
-def _kfloat_impl(v=0.0):
+def _kfloat_impl(v=0.0, caller=''):
     if _is_symbolic(v) and isinstance(v, _real_int) and not isinstance(v, bool):
-        return _IntegralFloat()          # symbolic int: only .is_integer() is ever asked of it (in _int_parser)
+        if caller == '_float_parser':
+            return _IntAsFloat(v)        # a number equal to v; comparisons only
+        return _IntegralFloat()          # symbolic int inside _int_parser: only .is_integer() is asked of it (lemma K4)
     return _real_float(v)
 
 
@@ -86,7 +123,17 @@ class kfloat(metaclass=_ShimMeta):
     _real = _real_float
 
     def __new__(cls, v=0.0):
-        return _kfloat_impl(v)
+        import sys as _sys
+        f = _sys._getframe(1)
+        caller = ''
+        for _ in range(6):                # CrossHair may put frames of its own between the call site and us
+            if f is None:
+                break
+            if f.f_code.co_name in ('_int_parser', '_float_parser', 'convert_status'):
+                caller = f.f_code.co_name
+                break
+            f = f.f_back
+        return _kfloat_impl(v, caller)
 
 
 class kint(metaclass=_ShimMeta):
